@@ -43,7 +43,7 @@ def handle (st : St) (idx : Nat) (line : String) : St × String :=
       (match (rest.find? (·.startsWith "[")).bind parseAVPs, kv rest "q" with
        | some as, some q =>
          (match q.splitOn ":" with
-          | [mode, cs] => (st, emit idx impl (judgeFind as mode (parseCodes cs) implToks))
+          | [mode, cs] => (st, emit idx impl (judgeFind dict ((kvNat rest "app").getD 0) as mode (parseCodes cs) implToks))
           | _ => bad)
        | _, _ => bad)
     | _ => bad
